@@ -407,7 +407,7 @@ def run(tier, seed):
               "{0,1,3} or integers 0..15 (with flat patches in 3 cases out of 10), masks absent/left/right/both over {0 valid,1 nodata,2 invalid}, "
               "measures sad/ssd/zncc x windows {1,3,5} and census x {3,5}, subpix {1,2,4}, all 28 scalar intervals within [-3,3] "
               "(1/2 of the cases), random integer per-pixel grids min<=max within [-3,3] (1/4), or float32 per-pixel grids min<=max within "
-              "[-3.3,3.3] whose values are off the sampling step (1/4; %d kinds by turns: constant [-1.3,1.7]; constant +-[0.x,2.y]; both "
+              "[-4,4] whose values are off the sampling step (1/4; %d kinds by turns: constant [-1.3,1.7]; constant +-[0.x,2.y]; both "
               "bounds n/4 +- {0.05,0.1} per pixel; fractional min with integer max; integer min with fractional max; each bound independently "
               "on a 1/4 step or off-step; column-wise intervals narrower than / about one step); %d cases per (measure,window,subpix,band) "
               "combination requested, %d cases run of which %d with fractional grids" % (N_FRACTIONAL_KINDS, PER_COMBO[tier], done, nfrac),
